@@ -11,23 +11,125 @@ Ltac zbool := repeat match goal with
   | H : (_ =? _) = false |- _ => apply Z.eqb_neq in H
   end.
 
+
+(* ==================================================== ideal-arithmetic twins
+   The model decrements the caller's counter as the code does: within its
+   signed type, not below the smallest value [lo] of that type (dec).  The
+   proofs first treat the same definitions with the mathematical decrement
+   (n - 1) — the twins below, which exist only in this file — and then
+   transfer to the model by a simulation: the model's counter is the twin's
+   counter clamped at lo (Z.max lo), and since lo < 0 every test the code makes
+   on the counter (< 1, > 0, == 0) comes out the same (the *_sim lemmas). *)
+
+Definition after_call_z (n : Z) : nat * Z :=
+  ((if n <? 1 then 1%nat else 0%nat), n - 1).
+
+Fixpoint after_calls_z (m : nat) (n : Z) : list nat * Z :=
+  match m with
+  | O => ([], n)
+  | S m' =>
+      let '(r, n1) := after_call_z n in
+      let '(rs, nf) := after_calls_z m' n1 in
+      (r :: rs, nf)
+  end.
+
+Definition before_call_z (clk fn : nat -> Z) (n : Z) (w : world) : outcome * Z * world :=
+  let n1 := n - 1 in
+  if 0 <? n1 then
+    ((1%nat, fn (w_k w)), n1, mkWorld (w_cache w) (w_tick w) (S (w_k w)))
+  else
+    let '(ran, c1, t1, k1) :=
+        if n1 =? 0 then
+          let v := fn (w_k w) in
+          let '(c1, t1) := c_set clk (w_cache w) v 0 (w_tick w) in
+          (1%nat, c1, t1, S (w_k w))
+        else (0%nat, w_cache w, w_tick w, w_k w) in
+    let '(memo, t2) := c_get clk c1 t1 in
+    ((ran, val_of memo), n1, mkWorld c1 t2 k1).
+
+Fixpoint before_calls_z (clk fn : nat -> Z) (m : nat) (n : Z) (w : world) : list outcome * Z * world :=
+  match m with
+  | O => ([], n, w)
+  | S m' =>
+      let '(o, n1, w1) := before_call_z clk fn n w in
+      let '(os, nf, wf) := before_calls_z clk fn m' n1 w1 in
+      (o :: os, nf, wf)
+  end.
+
+Definition mstep_z (clk fn : nat -> Z) (s : mstate) (o : mop) : outcome * mstate :=
+  let now := fun i : nat => clk i + m_skew s in
+  let with_cache c := mkM (m_a s) (m_b s) (m_skew s) (mkWorld c (w_tick (m_w s)) (w_k (m_w s))) in
+  match o with
+  | MBeforeA => let '(r, n1, w1) := before_call_z now fn (m_a s) (m_w s) in (r, mkM n1 (m_b s) (m_skew s) w1)
+  | MBeforeB => let '(r, n1, w1) := before_call_z now fn (m_b s) (m_w s) in (r, mkM (m_a s) n1 (m_skew s) w1)
+  | MOnce => let '(r, w1) := once_call now fn (m_w s) in (r, mkM (m_a s) (m_b s) (m_skew s) w1)
+  | MDelete => ((0%nat, 0), with_cache (c_delete (w_cache (m_w s))))
+  | MFlush => ((0%nat, 0), with_cache (c_flush (w_cache (m_w s))))
+  | MSleep d => ((0%nat, 0), mkM (m_a s) (m_b s) (m_skew s + Z.max 0 d) (m_w s))
+  end.
+
+Fixpoint mrun_z (clk fn : nat -> Z) (ops : list mop) (s : mstate) : list outcome * mstate :=
+  match ops with
+  | [] => ([], s)
+  | o :: ops' =>
+      let '(r, s1) := mstep_z clk fn s o in
+      let '(rs, sf) := mrun_z clk fn ops' s1 in
+      (r :: rs, sf)
+  end.
+
+(* ------------------------------------------------------ the decrement [dec] *)
+
+Lemma wrapT_small : forall lo z, lo < 0 -> is_int lo z -> wrapT lo z = z.
+Proof.
+  intros lo z Hlo H. unfold wrapT, is_int in *. rewrite Z.mod_small by lia. lia.
+Qed.
+
+Lemma wrapT_below : forall lo, lo < 0 -> wrapT lo (lo - 1) = - lo - 1.
+Proof.
+  intros lo Hlo. unfold wrapT.
+  replace (lo - 1 - lo) with ((2 * - lo - 1) + (-1) * (2 * - lo)) by lia.
+  rewrite Z.mod_add by lia. rewrite Z.mod_small by lia. lia.
+Qed.
+
+(* dec is the saturating decrement on the values of the type *)
+Lemma dec_saturates : forall lo n, lo < 0 -> is_int lo n ->
+  dec lo n = if n =? lo then n else n - 1.
+Proof.
+  intros lo n Hlo Hn. unfold dec. cbv zeta. destruct (n =? lo) eqn:E; zbool.
+  - subst n. rewrite wrapT_below by exact Hlo.
+    replace (- lo - 1 <? lo) with false by (symmetry; apply Z.ltb_ge; lia). reflexivity.
+  - unfold is_int in Hn. rewrite wrapT_small by (unfold is_int; lia).
+    replace (n - 1 <? n) with true by (symmetry; apply Z.ltb_lt; lia). reflexivity.
+Qed.
+
+(* ... i.e. the mathematical decrement, clamped at lo *)
+Lemma dec_max : forall lo z, lo < 0 -> z <= - lo - 1 ->
+  dec lo (Z.max lo z) = Z.max lo (z - 1).
+Proof.
+  intros lo z Hlo Hz. rewrite dec_saturates by (unfold is_int; lia).
+  destruct (Z.max lo z =? lo) eqn:E; zbool; lia.
+Qed.
+
+Lemma dec_orig_min : dec_orig min64 min64 = max64 /\ dec_orig min8 min8 = 127.
+Proof. vm_compute. split; reflexivity. Qed.
+
 (* ================================================================== After *)
 
-Lemma after_calls_final : forall m n, snd (after_calls m n) = n - Z.of_nat m.
+Lemma after_calls_final : forall m n, snd (after_calls_z m n) = n - Z.of_nat m.
 Proof.
   induction m as [|m IH]; intros n.
   - cbn. lia.
-  - cbn [after_calls]. unfold after_call.
-    destruct (after_calls m (n - 1)) as [rs nf] eqn:E.
+  - cbn [after_calls_z]. unfold after_call_z.
+    destruct (after_calls_z m (n - 1)) as [rs nf] eqn:E.
     specialize (IH (n - 1)). rewrite E in IH. cbn in *. lia.
 Qed.
 
-Lemma after_calls_runs : forall m n, fst (after_calls m n) = after_spec_runs n m.
+Lemma after_calls_runs : forall m n, fst (after_calls_z m n) = after_spec_runs n m.
 Proof.
   induction m as [|m IH]; intros n.
   - reflexivity.
-  - cbn [after_calls]. unfold after_call.
-    destruct (after_calls m (n - 1)) as [rs nf] eqn:E.
+  - cbn [after_calls_z]. unfold after_call_z.
+    destruct (after_calls_z m (n - 1)) as [rs nf] eqn:E.
     specialize (IH (n - 1)). rewrite E in IH. cbn [fst] in *.
     unfold after_spec_runs in *. cbn [seq map]. rewrite <- seq_shift, map_map.
     f_equal.
@@ -52,8 +154,8 @@ Proof.
   intros m n. rewrite <- after_calls_runs. revert n.
   induction m as [|m IH]; intros n.
   - cbn. lia.
-  - cbn [after_calls]. unfold after_call.
-    destruct (after_calls m (n - 1)) as [rs nf] eqn:E.
+  - cbn [after_calls_z]. unfold after_call_z.
+    destruct (after_calls_z m (n - 1)) as [rs nf] eqn:E.
     specialize (IH (n - 1)). rewrite E in IH. cbn [fst] in *.
     match goal with |- context [list_sum (?r :: ?l)] => change (list_sum (r :: l)) with (r + list_sum l)%nat end.
     rewrite Nat2Z.inj_add, IH.
@@ -147,7 +249,7 @@ Qed.
 
 Lemma retry_eq_spec : forall n ok, retry n ok = Some (retry_spec true n ok).
 Proof.
-  intros n ok. unfold retry, retry_spec.
+  intros n ok. unfold retry, retry_with, retry_spec.
   destruct (n <? 0) eqn:E; [reflexivity|]. apply Z.ltb_ge in E.
   pose proof (retry_loop_spec (Z.to_nat n) (retry_fuel n) n ok 0%nat 0 E) as H.
   change (Z.of_nat 0) with 0 in H. rewrite H; try (unfold retry_fuel; lia); auto.
@@ -382,19 +484,19 @@ Variable fn : nat -> Z.
 
 (* phase 1: counter still above 1 — run, return the fresh result, leave the cache alone *)
 Lemma before_call_counting : forall n w, 1 < n ->
-  before_call clk fn n w = ((1%nat, fn (w_k w)), n - 1, mkWorld (w_cache w) (w_tick w) (S (w_k w))).
+  before_call_z clk fn n w = ((1%nat, fn (w_k w)), n - 1, mkWorld (w_cache w) (w_tick w) (S (w_k w))).
 Proof.
-  intros n w Hn. unfold before_call.
+  intros n w Hn. unfold before_call_z.
   replace (0 <? n - 1) with true by (symmetry; apply Z.ltb_lt; lia). reflexivity.
 Qed.
 
 (* phase 3: counter at or below 0 — no run, the memo *)
 Lemma before_call_spent : forall n w, n <= 0 ->
-  before_call clk fn n w =
+  before_call_z clk fn n w =
   ((0%nat, val_of (fst (c_get clk (w_cache w) (w_tick w)))), n - 1,
    mkWorld (w_cache w) (snd (c_get clk (w_cache w) (w_tick w))) (w_k w)).
 Proof.
-  intros n w Hn. unfold before_call.
+  intros n w Hn. unfold before_call_z.
   replace (0 <? n - 1) with false by (symmetry; apply Z.ltb_ge; lia).
   replace (n - 1 =? 0) with false by (symmetry; apply Z.eqb_neq; lia).
   destruct (c_get clk (w_cache w) (w_tick w)) as [memo t2]. reflexivity.
@@ -402,11 +504,11 @@ Qed.
 
 (* phase 2: the n-th call — run, store, return the memo *)
 Lemma before_call_last : forall w,
-  before_call clk fn 1 w =
+  before_call_z clk fn 1 w =
   let '(c1, t1) := c_set clk (w_cache w) (fn (w_k w)) 0 (w_tick w) in
   ((1%nat, val_of (fst (c_get clk c1 t1))), 0, mkWorld c1 (snd (c_get clk c1 t1)) (S (w_k w))).
 Proof.
-  intros w. unfold before_call. cbn [Z.sub Z.ltb Z.eqb Z.compare Z.add Z.opp Z.pos_sub].
+  intros w. unfold before_call_z. cbn [Z.sub Z.ltb Z.eqb Z.compare Z.add Z.opp Z.pos_sub].
   destruct (c_set clk (w_cache w) (fn (w_k w)) 0 (w_tick w)) as [c1 t1].
   destruct (c_get clk c1 t1) as [memo t2]. reflexivity.
 Qed.
@@ -415,14 +517,14 @@ Qed.
 Lemma before_calls_spent : forall m n w memo,
   n <= 0 ->
   (forall t, fst (c_get clk (w_cache w) t) = memo) ->
-  let '(os, nf, wf) := before_calls clk fn m n w in
+  let '(os, nf, wf) := before_calls_z clk fn m n w in
   os = repeat (0%nat, val_of memo) m /\ nf = n - Z.of_nat m /\ w_k wf = w_k w /\ w_cache wf = w_cache w.
 Proof.
   induction m as [|m IH]; intros n w memo Hn Hget.
   - cbn. repeat split; lia.
-  - cbn [before_calls]. rewrite before_call_spent by exact Hn.
+  - cbn [before_calls_z]. rewrite before_call_spent by exact Hn.
     specialize (IH (n - 1) (mkWorld (w_cache w) (snd (c_get clk (w_cache w) (w_tick w))) (w_k w)) memo).
-    destruct (before_calls clk fn m (n - 1) _) as [[os nf] wf].
+    destruct (before_calls_z clk fn m (n - 1) _) as [[os nf] wf].
     destruct IH as (I1 & I2 & I3 & I4); [lia|exact Hget|].
     cbn [w_k w_cache] in *. rewrite Hget, I1. repeat split; auto; lia.
 Qed.
@@ -482,7 +584,7 @@ Lemma before_calls_fresh : forall m n w f,
   c_slot (w_cache w) = None ->
   expiry_ok (c_def (w_cache w)) (clk (w_tick w)) ->
   (forall j, f j = fn (w_k w + j)%nat) ->
-  let '(os, nf, wf) := before_calls clk fn m n w in
+  let '(os, nf, wf) := before_calls_z clk fn m n w in
   os = before_spec f n m /\ nf = n - Z.of_nat m /\
   Z.of_nat (w_k wf) = Z.of_nat (w_k w) + Z.min (Z.of_nat m) (Z.max 0 n).
 Proof.
@@ -490,16 +592,16 @@ Proof.
   - cbn. repeat split; lia.
   - destruct (Z_lt_le_dec 1 n) as [Hbig|Hsmall].
     + (* counting phase *)
-      cbn [before_calls]. rewrite before_call_counting by exact Hbig.
+      cbn [before_calls_z]. rewrite before_call_counting by exact Hbig.
       specialize (IH (n - 1) (mkWorld (w_cache w) (w_tick w) (S (w_k w))) (shift f 1)).
-      destruct (before_calls clk fn m (n - 1) _) as [[os nf] wf].
+      destruct (before_calls_z clk fn m (n - 1) _) as [[os nf] wf].
       destruct IH as (I1 & I2 & I3); auto.
       { intros j. unfold shift. cbn [w_k]. rewrite Hf. f_equal. lia. }
       cbn [w_k] in I3. rewrite before_spec_cons by exact Hbig.
       rewrite I1, Hf, Nat.add_0_r. repeat split; auto; lia.
     + destruct (Z.eq_dec n 1) as [->|Hne].
       * (* the n-th call stores; the rest is served from the cache *)
-        cbn [before_calls]. rewrite before_call_last.
+        cbn [before_calls_z]. rewrite before_call_last.
         rewrite (c_set_empty (w_cache w) (fn (w_k w)) (w_tick w) Hslot).
         set (c1 := mkCache (c_def (w_cache w)) (Some (fn (w_k w), expiry_of (c_def (w_cache w)) (clk (w_tick w))))).
         set (t1 := if 0 <? c_def (w_cache w) then S (w_tick w) else w_tick w).
@@ -507,13 +609,13 @@ Proof.
         { intros t. apply (c_get_live c1 t (fn (w_k w)) (expiry_of (c_def (w_cache w)) (clk (w_tick w)))); [reflexivity|].
           apply expiry_of_lives. exact Hlive. }
         pose proof (before_calls_spent m 0 (mkWorld c1 (snd (c_get clk c1 t1)) (S (w_k w))) (Some (fn (w_k w)))) as Sp.
-        destruct (before_calls clk fn m 0 _) as [[os nf] wf].
+        destruct (before_calls_z clk fn m 0 _) as [[os nf] wf].
         destruct Sp as (S1 & S2 & S3 & S4); [lia|exact Hget|].
         cbn [w_k] in S3. rewrite Hget. cbn [val_of] in *.
         rewrite before_spec_one, S1, Hf, Nat.add_0_r. repeat split; auto; lia.
       * (* n <= 0: nothing ever runs, the zero value *)
         pose proof (before_calls_spent (S m) n w None) as Sp.
-        destruct (before_calls clk fn (S m) n w) as [[os nf] wf].
+        destruct (before_calls_z clk fn (S m) n w) as [[os nf] wf].
         destruct Sp as (S1 & S2 & S3 & S4); [lia| |].
         { intros t. rewrite (c_get_none (w_cache w) t Hslot). reflexivity. }
         rewrite before_spec_spent by lia. cbn [val_of] in S1. repeat split; auto; lia.
@@ -623,7 +725,7 @@ Qed.
 
 (* one call of Before in ANY state *)
 Lemma before_call_any : forall n w,
-  let '((ran, ret), n', w') := before_call clk fn n w in
+  let '((ran, ret), n', w') := before_call_z clk fn n w in
   n' = n - 1 /\
   (1 <= n -> ran = 1%nat /\ w_k w' = S (w_k w)) /\
   (n <= 0 -> ran = 0%nat /\ w_k w' = w_k w /\ w_cache w' = w_cache w) /\
@@ -648,3 +750,419 @@ Lemma once_orig_twice :
   let '((ran, ret), w') := once_call_orig (fun _ => 0) fn (world0 0) in
   ran = 2%nat /\ ret = 11 /\ c_slot (w_cache w') = Some (10, 0).
 Proof. vm_compute. repeat split. Qed.
+
+(* ============================================ Before: run counts in ANY state *)
+
+Section BeforeAnyState.
+Variables clk fn : nat -> Z.
+
+Lemma before_call_ran : forall n w,
+  let '((ran, ret), n', w') := before_call_z clk fn n w in
+  ran = (if 1 <=? n then 1%nat else 0%nat) /\ n' = n - 1 /\
+  w_k w' = (w_k w + (if (1 <=? n)%Z then 1 else 0))%nat.
+Proof.
+  intros n w. pose proof (before_call_any clk fn n w) as H.
+  destruct (before_call_z clk fn n w) as [[[ran ret] n'] w'].
+  destruct H as (H1 & H2 & H3 & _).
+  destruct (1 <=? n) eqn:A; zbool.
+  - destruct (H2 A) as (-> & ->). repeat split; auto; lia.
+  - destruct H3 as (-> & -> & _); [lia|]. repeat split; auto; lia.
+Qed.
+
+(* m calls from ANY world (any cache content, any deadline) under ANY clock:
+   the invocation pattern depends on the counter alone *)
+Lemma before_calls_runs_any : forall m n w,
+  let '(os, nf, wf) := before_calls_z clk fn m n w in
+  map fst os = map (fun i => if Z.of_nat i <? n then 1%nat else 0%nat) (seq 0 m) /\
+  nf = n - Z.of_nat m /\
+  Z.of_nat (w_k wf) = Z.of_nat (w_k w) + Z.min (Z.of_nat m) (Z.max 0 n).
+Proof.
+  induction m as [|m IH]; intros n w.
+  - cbn. repeat split; lia.
+  - cbn [before_calls_z]. pose proof (before_call_ran n w) as H.
+    destruct (before_call_z clk fn n w) as [[[ran ret] n'] w'].
+    destruct H as (Hran & Hn & Hk). subst n'.
+    specialize (IH (n - 1) w').
+    destruct (before_calls_z clk fn m (n - 1) w') as [[os nf] wf].
+    destruct IH as (I1 & I2 & I3).
+    cbn [map fst seq]. rewrite <- seq_shift, map_map, I1. split; [|split].
+    + f_equal.
+      * rewrite Hran. destruct (1 <=? n) eqn:A, (Z.of_nat 0 <? n) eqn:B; zbool; try reflexivity; lia.
+      * apply map_ext. intros i.
+        destruct (Z.of_nat i <? n - 1) eqn:A, (Z.of_nat (S i) <? n) eqn:B; zbool; try reflexivity; lia.
+    + lia.
+    + rewrite I3, Hk. destruct (1 <=? n) eqn:A; zbool; lia.
+Qed.
+
+End BeforeAnyState.
+
+(* ================================ mixed histories: Before counts by its counter *)
+
+Definition is_before_a (o : mop) : bool := match o with MBeforeA => true | _ => false end.
+Definition is_before_b (o : mop) : bool := match o with MBeforeB => true | _ => false end.
+
+Lemma mstep_counters : forall clk fn s o,
+  m_a (snd (mstep_z clk fn s o)) = m_a s - (if is_before_a o then 1 else 0) /\
+  m_b (snd (mstep_z clk fn s o)) = m_b s - (if is_before_b o then 1 else 0).
+Proof.
+  intros clk fn s o. destruct o; cbn [mstep_z is_before_a is_before_b].
+  - pose proof (before_call_ran (fun i => clk i + m_skew s) fn (m_a s) (m_w s)) as H.
+    destruct (before_call_z _ fn (m_a s) (m_w s)) as [[[ran ret] n'] w']. cbn. lia.
+  - pose proof (before_call_ran (fun i => clk i + m_skew s) fn (m_b s) (m_w s)) as H.
+    destruct (before_call_z _ fn (m_b s) (m_w s)) as [[[ran ret] n'] w']. cbn. lia.
+  - destruct (once_call _ fn (m_w s)) as [r w1]. cbn. lia.
+  - cbn. lia.
+  - cbn. lia.
+  - cbn. lia.
+Qed.
+
+Lemma mrun_counters : forall clk fn ops s,
+  m_a (snd (mrun_z clk fn ops s)) = m_a s - Z.of_nat (length (filter is_before_a ops)) /\
+  m_b (snd (mrun_z clk fn ops s)) = m_b s - Z.of_nat (length (filter is_before_b ops)).
+Proof.
+  intros clk fn ops. induction ops as [|o ops IH]; intros s.
+  - cbn. lia.
+  - cbn [mrun_z]. pose proof (mstep_counters clk fn s o) as (Ha & Hb).
+    destruct (mstep_z clk fn s o) as [r s1]. cbn [snd] in Ha, Hb.
+    specialize (IH s1). destruct (mrun_z clk fn ops s1) as [rs sf]. cbn [snd] in *.
+    cbn [filter]. destruct (is_before_a o), (is_before_b o); cbn [length]; lia.
+Qed.
+
+Lemma mstep_before_a_ran : forall clk fn s,
+  fst (fst (mstep_z clk fn s MBeforeA)) = (if 1 <=? m_a s then 1%nat else 0%nat).
+Proof.
+  intros clk fn s. cbn [mstep_z].
+  pose proof (before_call_ran (fun i => clk i + m_skew s) fn (m_a s) (m_w s)) as H.
+  destruct (before_call_z _ fn (m_a s) (m_w s)) as [[[ran ret] n'] w']. cbn. tauto.
+Qed.
+
+Lemma mstep_before_b_ran : forall clk fn s,
+  fst (fst (mstep_z clk fn s MBeforeB)) = (if 1 <=? m_b s then 1%nat else 0%nat).
+Proof.
+  intros clk fn s. cbn [mstep_z].
+  pose proof (before_call_ran (fun i => clk i + m_skew s) fn (m_b s) (m_w s)) as H.
+  destruct (before_call_z _ fn (m_b s) (m_w s)) as [[[ran ret] n'] w']. cbn. tauto.
+Qed.
+
+(* ====================== mixed histories refine the memo-cell reference machine *)
+
+Section MemoCell.
+Variables (clk fn : nat -> Z) (def : Z).
+Hypothesis clk_const : forall i, clk i = clk 0%nat.
+Hypothesis clk_nonneg : 0 <= clk 0%nat.
+
+(* what a Get at instant [now] sees *)
+Definition live (now : Z) (slot : option (Z * Z)) : option Z :=
+  match slot with
+  | Some (v, e) => if (0 <? e) && (e <? now) then None else Some v
+  | None => None
+  end.
+
+(* deadlines stored by a cache with default expiry def, seen at instant now *)
+Definition slot_ok (now : Z) (slot : option (Z * Z)) : Prop :=
+  match slot with
+  | Some (_, e) => (0 < def -> 0 < e <= now + def) /\ (def <= 0 -> e <= 0)
+  | None => True
+  end.
+
+Lemma c_get_const : forall skew c t,
+  fst (c_get (fun i => clk i + skew) c t) = live (clk 0%nat + skew) (c_slot c).
+Proof.
+  intros skew c t. unfold c_get, live. destruct (c_slot c) as [[v e]|]; [|reflexivity].
+  rewrite (clk_const t). destruct (0 <? e); cbn [andb]; [|reflexivity].
+  destruct (e <? clk 0%nat + skew); reflexivity.
+Qed.
+
+Lemma c_set_const : forall skew c v t, 0 <= skew -> c_def c = def ->
+  slot_ok (clk 0%nat + skew) (c_slot c) ->
+  let c1 := fst (c_set (fun i => clk i + skew) c v 0 t) in
+  c_def c1 = def /\ slot_ok (clk 0%nat + skew) (c_slot c1) /\
+  live (clk 0%nat + skew) (c_slot c1) =
+    match live (clk 0%nat + skew) (c_slot c) with Some x => Some x | None => Some v end.
+Proof.
+  intros skew c v t Hskew Hdef Hok. cbv zeta. unfold c_set.
+  pose proof (c_get_const skew c t) as G.
+  destruct (c_get (fun i => clk i + skew) c t) as [memo t1]. cbn [fst] in G. subst memo.
+  destruct (live (clk 0%nat + skew) (c_slot c)) as [x|] eqn:L.
+  - cbn [fst]. rewrite L. auto.
+  - unfold c_add. cbn [Z.eqb]. rewrite Hdef.
+    set (now := clk 0%nat + skew) in *.
+    destruct (0 <? def) eqn:A.
+    + destruct (c_get (fun i => clk i + skew) c (S t1)) as [m2 t3]. cbn [fst c_def c_slot].
+      rewrite (clk_const t1). fold now. zbool. split; [reflexivity|]. split.
+      * cbn. split; intros; lia.
+      * unfold live. replace (now + def <? now) with false by (symmetry; apply Z.ltb_ge; lia).
+        rewrite andb_false_r. reflexivity.
+    + destruct (def <? 0) eqn:B; destruct (c_get (fun i => clk i + skew) c t1) as [m2 t3];
+        cbn [fst c_def c_slot]; zbool; (split; [reflexivity|]); split; cbn; try (split; intros; lia); reflexivity.
+Qed.
+
+Lemma before_call_const : forall skew x w, 0 <= skew -> c_def (w_cache w) = def ->
+  slot_ok (clk 0%nat + skew) (c_slot (w_cache w)) ->
+  let '(r, x1, w1) := before_call_z (fun i => clk i + skew) fn x w in
+  let '(r2, x2, memo2, k2) := s_before fn x (live (clk 0%nat + skew) (c_slot (w_cache w))) (w_k w) in
+  r = r2 /\ x1 = x2 /\ w_k w1 = k2 /\ c_def (w_cache w1) = def /\
+  slot_ok (clk 0%nat + skew) (c_slot (w_cache w1)) /\
+  live (clk 0%nat + skew) (c_slot (w_cache w1)) = memo2.
+Proof.
+  intros skew x w Hskew Hdef Hok. unfold s_before.
+  destruct (1 <? x) eqn:A; zbool.
+  - rewrite before_call_counting by lia. cbn [w_k w_cache]. repeat split; auto.
+  - destruct (x =? 1) eqn:B; zbool.
+    + subst x. rewrite before_call_last.
+      pose proof (c_set_const skew (w_cache w) (fn (w_k w)) (w_tick w) Hskew Hdef Hok) as H.
+      destruct (c_set (fun i => clk i + skew) (w_cache w) (fn (w_k w)) 0 (w_tick w)) as [c1 t1].
+      cbv zeta in H. cbn [fst] in H. destruct H as (H1 & H2 & H3).
+      cbn [w_k w_cache]. rewrite c_get_const, H3.
+      destruct (live (clk 0%nat + skew) (c_slot (w_cache w))); repeat split; auto.
+    + rewrite before_call_spent by lia. cbn [w_k w_cache]. rewrite c_get_const. repeat split; auto.
+Qed.
+
+Lemma once_call_const : forall skew w, 0 <= skew -> c_def (w_cache w) = def ->
+  slot_ok (clk 0%nat + skew) (c_slot (w_cache w)) ->
+  let '(r, w1) := once_call (fun i => clk i + skew) fn w in
+  let '(r2, memo2, k2) := s_once fn (live (clk 0%nat + skew) (c_slot (w_cache w))) (w_k w) in
+  r = r2 /\ w_k w1 = k2 /\ c_def (w_cache w1) = def /\
+  slot_ok (clk 0%nat + skew) (c_slot (w_cache w1)) /\
+  live (clk 0%nat + skew) (c_slot (w_cache w1)) = memo2.
+Proof.
+  intros skew w Hskew Hdef Hok. unfold s_once.
+  destruct (live (clk 0%nat + skew) (c_slot (w_cache w))) as [v|] eqn:L.
+  - rewrite (once_call_hit _ fn w v) by (rewrite c_get_const; exact L).
+    cbv zeta. cbn [w_k w_cache]. rewrite c_get_const, L. cbn [val_of]. repeat split; auto.
+  - rewrite (once_call_miss _ fn w) by (rewrite c_get_const; exact L). cbv zeta.
+    pose proof (c_set_const skew (w_cache w) (fn (w_k w))
+                  (snd (c_get (fun i => clk i + skew) (w_cache w) (w_tick w))) Hskew Hdef Hok) as H.
+    destruct (c_set (fun i => clk i + skew) (w_cache w) (fn (w_k w)) 0 _) as [c1 t2].
+    cbv zeta in H. cbn [fst] in H. destruct H as (H1 & H2 & H3). rewrite L in H3.
+    cbn [w_k w_cache]. repeat split; auto.
+Qed.
+
+Definition sim (ms : mstate) (ss : sstate) : Prop :=
+  m_a ms = s_a ss /\ m_b ms = s_b ss /\ w_k (m_w ms) = s_k ss /\
+  c_def (w_cache (m_w ms)) = def /\ 0 <= m_skew ms /\
+  slot_ok (clk 0%nat + m_skew ms) (c_slot (w_cache (m_w ms))) /\
+  s_memo ss = live (clk 0%nat + m_skew ms) (c_slot (w_cache (m_w ms))).
+
+Definition long_sleep (o : mop) : Prop := match o with MSleep d => def < d | _ => True end.
+
+Lemma sim_step : forall ms ss o, sim ms ss -> long_sleep o ->
+  fst (mstep_z clk fn ms o) = fst (sstep def fn ss o) /\
+  sim (snd (mstep_z clk fn ms o)) (snd (sstep def fn ss o)).
+Proof.
+  intros ms ss o (Ha & Hb & Hk & Hdef & Hskew & Hok & Hmemo) Hlong.
+  destruct o; cbn [mstep_z sstep].
+  - pose proof (before_call_const (m_skew ms) (m_a ms) (m_w ms) Hskew Hdef Hok) as H.
+    rewrite <- Ha, <- Hk, Hmemo.
+    destruct (before_call_z _ fn (m_a ms) (m_w ms)) as [[r x1] w1].
+    destruct (s_before fn (m_a ms) _ (w_k (m_w ms))) as [[[r2 x2] memo2] k2].
+    destruct H as (H1 & H2 & H3 & H4 & H5 & H6). cbn. unfold sim. cbn. repeat split; auto.
+  - pose proof (before_call_const (m_skew ms) (m_b ms) (m_w ms) Hskew Hdef Hok) as H.
+    rewrite <- Hb, <- Hk, Hmemo.
+    destruct (before_call_z _ fn (m_b ms) (m_w ms)) as [[r x1] w1].
+    destruct (s_before fn (m_b ms) _ (w_k (m_w ms))) as [[[r2 x2] memo2] k2].
+    destruct H as (H1 & H2 & H3 & H4 & H5 & H6). cbn. unfold sim. cbn. repeat split; auto.
+  - pose proof (once_call_const (m_skew ms) (m_w ms) Hskew Hdef Hok) as H.
+    rewrite <- Hk, Hmemo.
+    destruct (once_call _ fn (m_w ms)) as [r w1].
+    destruct (s_once fn _ (w_k (m_w ms))) as [[r2 memo2] k2].
+    destruct H as (H1 & H2 & H3 & H4 & H5). cbn. unfold sim. cbn. repeat split; auto.
+  - cbn. unfold sim. cbn. repeat split; auto.
+  - cbn. unfold sim. cbn. repeat split; auto.
+  - cbn [fst snd]. split; [reflexivity|]. unfold sim. cbn [m_a m_b m_skew m_w s_a s_b s_k s_memo].
+    cbn in Hlong. repeat split; auto; try lia.
+    + (* deadlines stay plausible *)
+      unfold slot_ok in *. destruct (c_slot (w_cache (m_w ms))) as [[v e]|]; [|exact I].
+      destruct Hok as (O1 & O2). split; intros; [specialize (O1 H)|specialize (O2 H)]; lia.
+    + (* a sleep longer than a positive expiry kills the entry; otherwise nothing expires *)
+      rewrite Hmemo. unfold live, slot_ok in *.
+      destruct (c_slot (w_cache (m_w ms))) as [[v e]|]; [|destruct ((0 <? def) && (def <? d)); reflexivity].
+      destruct Hok as (O1 & O2).
+      destruct (0 <? def) eqn:A; zbool.
+      * replace (def <? d) with true by (symmetry; apply Z.ltb_lt; lia). cbn [andb].
+        specialize (O1 A).
+        replace (0 <? e) with true by (symmetry; apply Z.ltb_lt; lia).
+        replace (e <? clk 0%nat + (m_skew ms + Z.max 0 d)) with true by (symmetry; apply Z.ltb_lt; lia).
+        reflexivity.
+      * cbn [andb]. specialize (O2 A).
+        replace (0 <? e) with false by (symmetry; apply Z.ltb_ge; lia). reflexivity.
+Qed.
+
+Lemma sim_run : forall ops ms ss, sim ms ss -> Forall long_sleep ops ->
+  fst (mrun_z clk fn ops ms) = fst (srun def fn ops ss) /\
+  sim (snd (mrun_z clk fn ops ms)) (snd (srun def fn ops ss)).
+Proof.
+  induction ops as [|o ops IH]; intros ms ss Hsim Hlong.
+  - cbn. auto.
+  - inversion Hlong as [|? ? Ho Hrest]; subst.
+    cbn [mrun_z srun]. pose proof (sim_step ms ss o Hsim Ho) as (S1 & S2).
+    destruct (mstep_z clk fn ms o) as [r ms1]. destruct (sstep def fn ss o) as [r2 ss1].
+    cbn [fst snd] in S1, S2. specialize (IH ms1 ss1 S2 Hrest).
+    destruct (mrun_z clk fn ops ms1) as [rs msf]. destruct (srun def fn ops ss1) as [rs2 ssf].
+    cbn [fst snd] in *. destruct IH as (I1 & I2). subst. auto.
+Qed.
+
+Lemma sim_init : forall na nb, sim (mkM na nb 0 (world0 def)) (mkS na nb None 0).
+Proof. intros. unfold sim, world0, cache_new. cbn. repeat split; auto; lia. Qed.
+
+End MemoCell.
+
+(* ============== RetryWithDelay: the pause of each gap starts after the attempt returned *)
+
+Lemma retry_delay_gap_after_return :
+  forall t_start (t_inv t_ret t_arm t_fire : nat -> Z) t_end d n ok,
+  (forall j, t_inv j <= t_ret j) ->
+  (forall j, t_ret j <= t_arm j) ->
+  (forall j, t_arm j + d <= t_fire j) ->
+  (forall j, t_fire j <= t_inv (S j)) ->
+  exists r, retry_delay t_start t_inv t_arm t_fire t_end n ok = Some r /\
+  forall j, (S j < r_calls (d_res r))%nat ->
+    nth j (d_waits r) (0, 0) = (t_arm j, t_fire j) /\
+    t_ret j + d <= t_inv (S j) /\
+    nth j (d_elapsed r) 0 + (t_ret j - t_inv j) + d <= nth (S j) (d_elapsed r) 0.
+Proof.
+  intros t_start t_inv t_ret t_arm t_fire t_end d n ok H0 H1 H2 H3.
+  eexists. split; [apply retry_delay_eq_spec|]. unfold timed_of. cbn [d_elapsed d_res d_waits].
+  set (c := r_calls (retry_spec false n ok)).
+  intros j Hj. split; [|split].
+  - unfold waits_upto. set (f := fun j0 : nat => (t_arm j0, t_fire j0)).
+    assert (Hlen : (j < (if (r_err (retry_spec false n ok) =? 0)%Z then c - 1 else c))%nat)
+      by (destruct (r_err (retry_spec false n ok) =? 0); lia).
+    rewrite nth_indep with (d' := f 0%nat) by (rewrite map_length, seq_length; exact Hlen).
+    rewrite map_nth, seq_nth by exact Hlen. reflexivity.
+  - specialize (H1 j). specialize (H2 j). specialize (H3 j). lia.
+  - unfold elapsed_upto. set (f := fun j0 : nat => t_inv j0 - t_start).
+    rewrite !nth_indep with (d := 0) (d' := f 0%nat) by (rewrite map_length, seq_length; lia).
+    rewrite !map_nth, !seq_nth by lia. subst f. cbn beta. cbn [Nat.add].
+    specialize (H1 j). specialize (H2 j). specialize (H3 j). lia.
+Qed.
+
+(* ======================= from the ideal twins to the model: clamping simulation *)
+
+Lemma after_calls_sim : forall lo m z, lo < 0 -> z <= - lo - 1 ->
+  after_calls lo m (Z.max lo z) = (fst (after_calls_z m z), Z.max lo (snd (after_calls_z m z))).
+Proof.
+  intros lo m. induction m as [|m IH]; intros z Hlo Hz; [reflexivity|].
+  unfold after_calls in *. cbn [after_calls_with after_calls_z]. unfold after_call_with, after_call_z.
+  rewrite dec_max by assumption. rewrite IH by lia.
+  destruct (after_calls_z m (z - 1)) as [rs nf]. cbn [fst snd].
+  replace (Z.max lo z <? 1) with (z <? 1); [reflexivity|].
+  destruct (z <? 1) eqn:A; zbool; symmetry; [apply Z.ltb_lt|apply Z.ltb_ge]; lia.
+Qed.
+
+Lemma before_call_sim : forall lo clk fn z w, lo < 0 -> z <= - lo - 1 ->
+  before_call lo clk fn (Z.max lo z) w =
+  let '(o, z1, w1) := before_call_z clk fn z w in (o, Z.max lo z1, w1).
+Proof.
+  intros lo clk fn z w Hlo Hz. unfold before_call, before_call_with, before_call_z.
+  rewrite dec_max by assumption. cbv zeta.
+  replace (0 <? Z.max lo (z - 1)) with (0 <? z - 1)
+    by (destruct (0 <? z - 1) eqn:A; zbool; symmetry; [apply Z.ltb_lt|apply Z.ltb_ge]; lia).
+  destruct (0 <? z - 1); [reflexivity|].
+  replace (Z.max lo (z - 1) =? 0) with (z - 1 =? 0)
+    by (destruct (z - 1 =? 0) eqn:A; zbool; symmetry; [apply Z.eqb_eq|apply Z.eqb_neq]; lia).
+  destruct (z - 1 =? 0).
+  - destruct (c_set clk (w_cache w) (fn (w_k w)) 0 (w_tick w)) as [c1 t1].
+    destruct (c_get clk c1 t1) as [memo t2]. reflexivity.
+  - destruct (c_get clk (w_cache w) (w_tick w)) as [memo t2]. reflexivity.
+Qed.
+
+Lemma before_call_z_counter : forall clk fn n w, snd (fst (before_call_z clk fn n w)) = n - 1.
+Proof.
+  intros clk fn n w. pose proof (before_call_any clk fn n w) as H.
+  destruct (before_call_z clk fn n w) as [[[ran ret] n'] w']. cbn. tauto.
+Qed.
+
+Lemma before_calls_sim : forall lo clk fn m z w, lo < 0 -> z <= - lo - 1 ->
+  before_calls lo clk fn m (Z.max lo z) w =
+  let '(os, zf, wf) := before_calls_z clk fn m z w in (os, Z.max lo zf, wf).
+Proof.
+  intros lo clk fn m. induction m as [|m IH]; intros z w Hlo Hz; [reflexivity|].
+  unfold before_calls in *. cbn [before_calls_with before_calls_z].
+  change (before_call_with clk fn (dec lo)) with (before_call lo clk fn).
+  rewrite before_call_sim by assumption.
+  pose proof (before_call_z_counter clk fn z w) as Hc.
+  destruct (before_call_z clk fn z w) as [[o z1] w1]. cbn [fst snd] in Hc. subst z1.
+  rewrite IH by lia.
+  destruct (before_calls_z clk fn m (z - 1) w1) as [[os zf] wf]. reflexivity.
+Qed.
+
+(* a state of the model is the twin's state with both counters clamped *)
+Definition clampS (lo : Z) (s : mstate) : mstate :=
+  mkM (Z.max lo (m_a s)) (Z.max lo (m_b s)) (m_skew s) (m_w s).
+
+Lemma mstep_sim : forall lo clk fn s o, lo < 0 -> m_a s <= - lo - 1 -> m_b s <= - lo - 1 ->
+  mstep lo clk fn (clampS lo s) o = (fst (mstep_z clk fn s o), clampS lo (snd (mstep_z clk fn s o))).
+Proof.
+  intros lo clk fn s o Hlo Ha Hb. destruct o; cbn [mstep mstep_z clampS m_a m_b m_skew m_w]; try reflexivity.
+  - rewrite before_call_sim by assumption.
+    destruct (before_call_z _ fn (m_a s) (m_w s)) as [[r z1] w1]. reflexivity.
+  - rewrite before_call_sim by assumption.
+    destruct (before_call_z _ fn (m_b s) (m_w s)) as [[r z1] w1]. reflexivity.
+  - destruct (once_call _ fn (m_w s)) as [r w1]. reflexivity.
+Qed.
+
+Lemma mrun_sim : forall lo clk fn ops s, lo < 0 -> m_a s <= - lo - 1 -> m_b s <= - lo - 1 ->
+  mrun lo clk fn ops (clampS lo s) = (fst (mrun_z clk fn ops s), clampS lo (snd (mrun_z clk fn ops s))).
+Proof.
+  intros lo clk fn ops. induction ops as [|o ops IH]; intros s Hlo Ha Hb; [reflexivity|].
+  cbn [mrun mrun_z]. rewrite mstep_sim by assumption.
+  pose proof (mstep_counters clk fn s o) as (Ca & Cb).
+  destruct (mstep_z clk fn s o) as [r s1]. cbn [fst snd] in *.
+  rewrite IH; [|exact Hlo| |]; [|destruct (is_before_a o); lia|destruct (is_before_b o); lia].
+  destruct (mrun_z clk fn ops s1) as [rs sf]. reflexivity.
+Qed.
+
+Lemma clampS_id : forall lo s, lo <= m_a s -> lo <= m_b s -> clampS lo s = s.
+Proof.
+  intros lo [a b k w] Ha Hb. unfold clampS. cbn [m_a m_b m_skew m_w] in *.
+  rewrite !Z.max_r by assumption. reflexivity.
+Qed.
+
+(* the code as shipped before ddacf7d wrapped at the smallest value of the type *)
+Lemma after_orig_minint_wraps : after_calls_orig min64 3 min64 = ([1%nat; 0%nat; 0%nat], max64 - 2).
+Proof. vm_compute. reflexivity. Qed.
+
+Lemma before_orig_minint_wraps :
+  fst (fst (before_calls_orig min64 (fun _ => 0) (fun k => 10 + Z.of_nat k) 3 min64 (world0 0)))
+  = [(1%nat, 10); (1%nat, 11); (1%nat, 12)].
+Proof. vm_compute. reflexivity. Qed.
+
+(* an int8 counter: After(&n) with n = 1 re-armed after 128 further calls *)
+Lemma after_orig_int8_rearms :
+  list_sum (fst (after_calls_orig min8 600 1)) = 345%nat /\
+  list_sum (fst (after_calls min8 600 1)) = 599%nat.
+Proof. vm_compute. split; reflexivity. Qed.
+
+(* ====================================== Retry with a huge n: fuel and closed form *)
+
+Lemma retry_loop_more_fuel : forall fuel fuel' n ok a e k r,
+  retry_loop fuel n ok a e k = Some r -> (fuel <= fuel')%nat -> retry_loop fuel' n ok a e k = Some r.
+Proof.
+  induction fuel as [|fuel IH]; intros fuel' n ok a e k r H Hle; [discriminate|].
+  destruct fuel' as [|fuel']; [lia|]. cbn [retry_loop] in *.
+  destruct (a <? n); [|exact H]. destruct (ok k); [exact H|].
+  apply (IH fuel'); [exact H|lia].
+Qed.
+
+(* whatever fuel the evaluation was given: if it finished, it finished with the closed form *)
+Lemma retry_with_sound : forall fuel n ok r,
+  retry_with fuel n ok = Some r -> r = retry_spec true n ok.
+Proof.
+  intros fuel n ok r H. pose proof (retry_eq_spec n ok) as E. unfold retry, retry_with in *.
+  destruct (n <? 0); [congruence|].
+  apply (retry_loop_more_fuel _ (Nat.max fuel (retry_fuel n))) in H; [|lia].
+  apply (retry_loop_more_fuel _ (Nat.max fuel (retry_fuel n))) in E; [|lia].
+  congruence.
+Qed.
+
+(* the first success decides, however large n is *)
+Lemma retry_first_success : forall c n ok b f,
+  first_ok ok b = Some f -> Z.of_nat f < n -> retry_spec c n ok = mkRetry (Z.of_nat f) 0 (S f).
+Proof.
+  intros c n ok b f H Hf. unfold first_ok in H. apply first_ok_from_some in H as (H1 & H2 & H3).
+  apply retry_spec_success; auto. intros j Hj. apply H3. lia.
+Qed.
+
+Lemma filter_len_le : forall (A : Type) (f : A -> bool) (l : list A), (length (filter f l) <= length l)%nat.
+Proof. intros A f l. induction l as [|x l IH]; cbn; [lia|]. destruct (f x); cbn; lia. Qed.
